@@ -18,6 +18,9 @@ Definition rto (s : schema) : Prop :=
               jdecode true s (JObj o) = Ok v.
 Definition rt2 (s : schema) : Prop := rt s /\ (is_struct s = true -> rto s).
 
+Lemma bind_ok : forall A B (r : res A) (f : A -> res B) b, bind r f = Ok b -> exists a, r = Ok a /\ f a = Ok b.
+Proof. intros A B [a|e|] f b H; try discriminate. exists a. split; [reflexivity|exact H]. Qed.
+
 (* ---------- lookups in association lists ---------- *)
 Lemma existsb_streqb : forall k l, existsb (String.eqb k) l = true <-> In k l.
 Proof.
@@ -297,6 +300,30 @@ Proof.
   apply existsb_exists. exists c. split; [exact Hin|apply N.eqb_refl].
 Qed.
 
+Lemma wf_alt_code_lt : forall a c, wf_schema a = true -> alt_code a = Some c -> (c < 4294967296)%N.
+Proof.
+  intros a c Hw Ha. destruct a; try discriminate; destruct code as [c'|]; try discriminate;
+    inversion Ha; subst c'; cbn [wf_schema] in Hw; apply andb_prop in Hw.
+  - destruct Hw as [_ Hc]. apply N.ltb_lt in Hc. exact Hc.
+  - destruct Hw as [Hc _]. apply N.ltb_lt in Hc. exact Hc.
+Qed.
+
+(* the encoding of an alternative is an object that starts with its "type" entry *)
+Lemma alt_enc_typed : forall a c v j, alt_code a = Some c -> jencode a v = Ok j ->
+  exists o', j = JObj ((key_type, JNum (Z.of_N c)) :: o').
+Proof.
+  intros a c v j Ha E. destruct a; try discriminate; destruct code as [c'|]; try discriminate;
+    inversion Ha; subst c'; cbn [jencode] in E.
+  - assert (B : forall x, (match x with
+                           | VList vs => if fields_ok fs then let* kvs := enc_fields jencode fs vs in Ok (JObj (code_entry (Some c) ++ kvs))
+                                         else Err EUnsupported
+                           | _ => Err EType end) = Ok j -> exists o', j = JObj ((key_type, JNum (Z.of_N c)) :: o')).
+    { intros x Ex. destruct x; try discriminate. destruct (fields_ok fs); [|discriminate].
+      apply bind_ok in Ex. destruct Ex as (kvs & _ & Ex). inversion Ex. cbn [code_entry app]. eauto. }
+    destruct ptr; [destruct v; try discriminate|]; apply B in E; exact E.
+  - destruct ptr; [destruct v; try discriminate|]; destruct v; try discriminate; inversion E; eauto.
+Qed.
+
 Lemma iface_rt : forall alts,
   Forall (fun a : N * schema => wf_schema (snd a) = true -> rt2 (snd a)) alts ->
   wf_schema (SIface alts) = true -> rt (SIface alts).
@@ -309,30 +336,25 @@ Proof.
   assert (H : exists a, find_alt (fun a => jencode a v) code alts = jencode a v /\
                         (forall j, find_alt (fun a => jdecode true a j) code alts = jdecode true a j) /\
                         has_type a v = true /\ (wf_schema a = true -> rt a) /\
-                        (code < 4294967296)%N /\
-                        exists fs, a = SStruct false (Some code) fs /\ wf_schema a = true).
+                        alt_code a = Some code /\ wf_schema a = true).
   { clear -HF Hal Ht. induction HF as [|[c a] r Hx _ IH]; [discriminate|].
     cbn [forallb] in Hal. apply andb_prop in Hal. destruct Hal as [Ha Hr].
     cbn [alt_has_type] in Ht. cbn [find_alt].
     destruct (code =? c)%N eqn:E.
     - apply N.eqb_eq in E. subst c. exists a. split; [reflexivity|]. split; [reflexivity|].
       split; [exact Ht|]. split; [exact (fun w => proj1 (Hx w))|].
-      destruct a; try discriminate. destruct ptr; try discriminate. destruct code0 as [c'|]; try discriminate.
+      destruct (alt_code a) as [c'|]; [|discriminate].
       apply andb_prop in Ha. destruct Ha as [Ec Hw]. apply N.eqb_eq in Ec. subst c'.
-      split; [|exists fs; split; [reflexivity|exact Hw]].
-      cbn [wf_schema] in Hw. apply andb_prop in Hw. destruct Hw as [_ Hc]. apply N.ltb_lt in Hc. exact Hc.
+      split; [reflexivity|exact Hw].
     - apply IH; assumption. }
-  destruct H as (a & Fe & Fd & Hta & Hrt & Hc & fs & Ea & Hwa).
+  destruct H as (a & Fe & Fd & Hta & Hrt & Hac & Hwa).
+  pose proof (wf_alt_code_lt a code Hwa Hac) as Hc.
   destruct (Hrt Hwa v Hta) as (j & Ej & Dj).
   exists j. split.
   { destruct alts; [discriminate|]. rewrite Fe. exact Ej. }
   destruct alts as [|a0 alts0] eqn:Ealts; [discriminate|]. rewrite <- Ealts in *.
   (* j is an object whose first entry is ("type", code) *)
-  subst a. cbn [jencode] in Ej.
-  destruct v; try discriminate.
-  destruct (fields_ok fs); [|discriminate].
-  destruct (enc_fields jencode fs l) as [kvs| |]; try discriminate.
-  cbn [bind code_entry app] in Ej. inversion Ej; subst j. clear Ej.
+  destruct (alt_enc_typed a code v j Hac Ej) as (o' & ->).
   cbn [jlookup]. rewrite String.eqb_refl.
   rewrite conv_u32_code by exact Hc. rewrite Fd. rewrite Dj. reflexivity.
 Qed.
@@ -407,8 +429,6 @@ Theorem jroundtrip : forall s, wf_schema s = true -> rt s.
 Proof. intros s H. exact (proj1 (jroundtrip2 s H)). Qed.
 
 (* ---------- JSONEncode / JSONDecode entry points ---------- *)
-Lemma bind_ok : forall A B (r : res A) (f : A -> res B) b, bind r f = Ok b -> exists a, r = Ok a /\ f a = Ok b.
-Proof. intros A B [a|e|] f b H; try discriminate. exists a. split; [reflexivity|exact H]. Qed.
 
 Lemma enc_fields_ok : forall fs vs kvs,
   Forall (fun f : string * fmode * schema => forall v j, jencode (snd f) v = Ok j -> json_ok j = true) fs ->
